@@ -573,11 +573,12 @@ Qed.
 
 Lemma Inv_drop_index td nm : Inv td -> Inv (drop_index td nm).
 Proof.
-  intros [OK W]. unfold drop_index. destruct (def_keyed (defs td) (lower nm)); [|split; assumption].
-  split; cbn; [apply defs_ok_filter; exact OK|]. intros k d H. apply filter_In in H. destruct H as [H NE].
+  intros [OK W]. unfold drop_index. destruct (def_keyed (defs td) (lower nm)) as [d|] eqn:F; [|split; assumption].
+  apply def_keyed_some in F.
+  split; cbn; [apply defs_ok_filter; exact OK|]. intros k d2 H. apply filter_In in H. destruct H as [H NE].
   cbn in NE. apply negb_true_iff in NE. apply name_eqb_neq in NE.
-  destruct (name_eqb (iname d) (lower nm)) eqn:E.
-  - exfalso. apply name_eqb_eq in E. apply NE. destruct OK as [_ L]. rewrite (L _ _ H), E. reflexivity.
+  destruct (name_eqb (iname d2) (iname d)) eqn:E.
+  - exfalso. apply name_eqb_eq in E. apply NE. pose proof (defs_ok_names _ _ _ _ _ OK H F E) as EE. congruence.
   - apply (W _ _ H).
 Qed.
 
@@ -590,9 +591,13 @@ Proof.
   - eapply Inv_apply_edits; [|exact S|exact E]. apply Inv_truncate. cbn. apply defs_ok_add; assumption.
 Qed.
 
-Theorem Inv_step hp td o td' : Inv td -> step_ok hp td o = true -> step hp td o = Ok td' -> Inv td'.
+(* RENAME INDEX needs the stronger invariant of Store/C16IndexOrder.v (storage keys = index names); see Good_step *)
+Definition op_not_rename (o : op) : bool := match o with ORename _ _ => false | _ => true end.
+
+Theorem Inv_step hp td o td' :
+  Inv td -> op_not_rename o = true -> step_ok hp td o = true -> step hp td o = Ok td' -> Inv td'.
 Proof.
-  intros H S E. destruct o as [dels adds| |d|nm|a b| |d]; cbn in E.
+  intros H NR S E. destruct o as [dels adds| |d|nm|a b| |d]; cbn in E.
   - eapply Inv_apply_edits; [exact H | exact S | exact E].
   - injection E as <-. apply Inv_truncate. apply H.
   - eapply Inv_create_index; eassumption.
@@ -602,12 +607,14 @@ Proof.
   - discriminate.
 Qed.
 
-Theorem Inv_run hp h : forall td td', Inv td -> hist_ok hp td h = true -> run hp td h = Ok td' -> Inv td'.
+Theorem Inv_run hp h : forall td td',
+  Inv td -> forallb op_not_rename h = true -> hist_ok hp td h = true -> run hp td h = Ok td' -> Inv td'.
 Proof.
-  induction h as [|o t IH]; intros td td' H S E; cbn in *.
+  induction h as [|o t IH]; intros td td' H NR S E; cbn in *.
   - injection E as <-. exact H.
-  - apply andb_prop in S. destruct S as [S1 S2]. destruct (step hp td o) as [td1|] eqn:E1; [|discriminate].
-    eapply IH; [eapply Inv_step; eassumption | exact S2 | exact E].
+  - apply andb_prop in S. destruct S as [S1 S2]. apply andb_prop in NR. destruct NR as [N1 N2].
+    destruct (step hp td o) as [td1|] eqn:E1; [|discriminate].
+    eapply IH; [eapply Inv_step; eassumption | exact N2 | exact S2 | exact E].
 Qed.
 
 Lemma Inv_init n pks : Inv (init n pks).
